@@ -651,6 +651,29 @@ func c06Case(in c06In) Case {
 			}
 			seen[a] = true
 		}
+		if in.Recursive && o.info["walked"] > 0 {
+			names := map[string]bool{}
+			for _, e := range in.Tree {
+				names[e.Path] = true
+			}
+			for _, e := range in.Tree {
+				base := e.Path[strings.LastIndexByte(e.Path, '/')+1:]
+				if !strings.ContainsAny(base, "*?[\\") {
+					continue
+				}
+				add("pattern-named-entry-in-tree", false)
+				under := false
+				for _, a := range in.Args {
+					if strings.HasPrefix(e.Path, strings.TrimSuffix(a, "/")+"/") {
+						under = true
+					}
+				}
+				if ms, err := filepath.Glob(filepath.Join(root, e.Path)); under && (err != nil || len(ms) != 1 || ms[0] != filepath.Join(root, e.Path)) {
+					add("walked-name-is-a-pattern-matching-a-sibling", true)
+				}
+				break
+			}
+		}
 		if o.badPat {
 			add("bad-pattern", true)
 			add("kf:"+kfBadPattern, false)
@@ -765,6 +788,18 @@ func genFile(r *Rng, numeric bool) (string, []byte) {
 var fileNames = []string{"a.log", "b.log", "c.gz", "x", "y.txt", "q[1]", "s*r", "m.log.gz", "n1", "n2"}
 var dirNames = []string{"d", "sub", "e", "logs", "z.d"}
 
+// a name that is a glob pattern next to a sibling that the name matches when (wrongly) read as a pattern:
+// the walk of -R must emit each under its own name exactly once; as a command-line argument the pattern semantics apply
+var patternPairs = [][2]string{
+	{"x[1].log", "x1.log"}, {"s*.txt", "sab.txt"}, {"w?.txt", "wa.txt"}, {"r[a-c].log", "rb.log"}, {`a\*b`, "a*b"}, {"*", "zz"},
+}
+var patternDirPairs = [][2]string{{"g[1]", "g1"}, {"h*", "hx"}}
+var malformedNames = []string{"k[", "m[a-", `t\`}
+
+func markedFile(path string) c06Ent { // distinct non-empty content: reading the wrong file or one file twice shows in the lines
+	return c06Ent{Path: path, Data: hex.EncodeToString([]byte("in " + path + "\nQ 2\n")), Kind: "plain"}
+}
+
 func genTree(r *Rng, numeric bool) []c06Ent {
 	var tree []c06Ent
 	var fill func(prefix string, depth int)
@@ -779,6 +814,28 @@ func genTree(r *Rng, numeric bool) []c06Ent {
 			used[n] = true
 			kind, data := genFile(r, numeric)
 			tree = append(tree, c06Ent{Path: prefix + n, Data: hex.EncodeToString(data), Kind: kind})
+		}
+		if r.Chance(1, 3) {
+			pp := Pick(r, patternPairs)
+			if !used[pp[0]] && !used[pp[1]] {
+				used[pp[0]], used[pp[1]] = true, true
+				tree = append(tree, markedFile(prefix+pp[0]), markedFile(prefix+pp[1]))
+			}
+		}
+		if r.Chance(1, 12) {
+			n := Pick(r, malformedNames)
+			if !used[n] {
+				used[n] = true
+				tree = append(tree, markedFile(prefix+n))
+			}
+		}
+		if depth < 3 && r.Chance(1, 8) {
+			dp := Pick(r, patternDirPairs)
+			if !used[dp[0]] && !used[dp[1]] {
+				used[dp[0]], used[dp[1]] = true, true
+				tree = append(tree, c06Ent{Path: prefix + dp[0], Dir: true}, markedFile(prefix+dp[0]+"/f.log"),
+					c06Ent{Path: prefix + dp[1], Dir: true}, markedFile(prefix+dp[1]+"/f.log"))
+			}
 		}
 		if depth < 3 {
 			nd := r.Intn(3)
@@ -950,6 +1007,34 @@ func fixedCases() []c06In {
 	return out
 }
 
+// names that are glob patterns below a -R directory, next to the siblings they would match
+func patternCases() []c06In {
+	var tree []c06Ent
+	tree = append(tree, c06Ent{Path: "top", Dir: true}, c06Ent{Path: "top/p", Dir: true}, c06Ent{Path: "top/p/n", Dir: true})
+	for _, prefix := range []string{"top/p/", "top/p/n/"} {
+		for _, pp := range patternPairs {
+			tree = append(tree, markedFile(prefix+pp[0]), markedFile(prefix+pp[1]))
+		}
+	}
+	for _, dp := range patternDirPairs {
+		tree = append(tree, c06Ent{Path: "top/" + dp[0], Dir: true}, markedFile("top/"+dp[0]+"/f.log"),
+			c06Ent{Path: "top/" + dp[1], Dir: true}, markedFile("top/"+dp[1]+"/f.log"))
+	}
+	tree = append(tree, markedFile("top/p/k["))
+	argsets := [][]string{
+		{"top/p/n"}, {"top/p"}, {"top"}, {"top/p/"},
+		{"top/p/n", "top/p/n/x[1].log"}, {"top/p/n", "top/p/n/s*.txt"}, {"top/p/n/w?.txt", "top/p/n"}, {"top/p/n/r[a-c].log"},
+		{`top/p/n/a\*b`, "top/p/n"}, {"top/g[1]", "top/g1"}, {"top/h*"}, {"top/p/n/*"}, {"top/p/k[", "top/p/n"},
+	}
+	var out []c06In
+	for i, as := range argsets {
+		for _, rec := range []bool{true, false} {
+			out = append(out, c06In{Tree: tree, Args: as, Recursive: rec, Readers: 1 + i%4, Workers: 1 + i%3, Batch: 1000, Q: 'Q', Mode: (i / 5) % 2})
+		}
+	}
+	return out
+}
+
 func gen(r *Rng, n int, tier string) []Case {
 	buildRare()
 	var cases []Case
@@ -957,6 +1042,9 @@ func gen(r *Rng, n int, tier string) []Case {
 		cases = append(cases, c06Case(in))
 	}
 	for _, in := range alignedCases() {
+		cases = append(cases, c06Case(in))
+	}
+	for _, in := range patternCases() {
 		cases = append(cases, c06Case(in))
 	}
 	for len(cases) < n {
@@ -970,10 +1058,10 @@ func main() {
 		Name:   "C06",
 		Header: "From Coq Require Import List NArith ZArith String.\nFrom RareV Require Import Corr.C06Case.\nImport ListNotations.\nLocal Open Scope string_scope.\nLocal Open Scope N_scope.\n",
 		Rule: "the rare binary built from the tree under test, run (filter -e '{src}:{line}:{0}', filter -m '^.*Q.*$', histo -e {src} -e {0}) in real temporary trees: " +
-			"a fixed scope (15 argument lists x -z x -R on one tree with plain / gzip / truncated gzip / empty files and nested directories, stdin forms, 5 large single-input cases of fixed-width numbered records (1300 x 128 bytes as plain file, plain under -z, gzip under -z, standard input, with --batch 100000 so that every line is still held when the buffer is refilled; 2200 x 128 bytes with the default batch and 3 workers): a newline is exactly the last byte of a full 128 KiB read-ahead buffer and every record must be printed exactly once under its own line number; standard input failing while read: directory handle at CLI level, and at library level batchers.OpenReaderToChan + helpers.DetermineErrorState over a reader that fails after 0-3 lines) then seeded random trees (depth <= 3, names incl. glob metacharacters, " +
+			"a fixed scope (15 argument lists x -z x -R on one tree with plain / gzip / truncated gzip / empty files and nested directories, stdin forms, 26 argument lists x -R over a tree of pattern-named files and directories next to the siblings their names match as patterns (x[1].log+x1.log, s*.txt+sab.txt, w?.txt+wa.txt, r[a-c].log+rb.log, a\\*b+a*b, *+zz, g[1]/+g1/, h*/+hx/, malformed k[), walked directly, from a parent, and mixed with the same names as command-line patterns; 5 large single-input cases of fixed-width numbered records (1300 x 128 bytes as plain file, plain under -z, gzip under -z, standard input, with --batch 100000 so that every line is still held when the buffer is refilled; 2200 x 128 bytes with the default batch and 3 workers): a newline is exactly the last byte of a full 128 KiB read-ahead buffer and every record must be printed exactly once under its own line number; standard input failing while read: directory handle at CLI level, and at library level batchers.OpenReaderToChan + helpers.DetermineErrorState over a reader that fails after 0-3 lines) then seeded random trees (depth <= 3, names incl. glob metacharacters, pattern-named entries paired with a sibling the name matches (1 directory in 3), malformed-pattern names, " +
 			"files: plain, empty, gzip, truncated gzip (header/body/trailer), damaged trailer, damaged deflate body, multi-member, trailing garbage, plain > 4096 bytes) x 1-4 arguments (file, directory with or without trailing slash, glob, missing path, " +
 			"duplicate, malformed pattern, '-' first or later, none) x -z x -R x --readers 1-4 x --workers 1-3 x --batch {1,2,3,1000}. Oracles: os.Stat, filepath.Glob, os.ReadDir order, compress/gzip called by the harness on the same tree. " +
-			"distinct = distinct (tree, arguments, flags, stdin); non-trivial = at least one of: a directory walked by -R, a glob with >= 2 matches, a pattern without match taken literally, a missing path next to other arguments, " +
+			"distinct = distinct (tree, arguments, flags, stdin); non-trivial = at least one of: a directory walked by -R, a walked entry whose name read as a pattern would match something else, a glob with >= 2 matches, a pattern without match taken literally, a missing path next to other arguments, " +
 			"a directory opened as a file, a duplicate mention, a malformed pattern, -z over a file that is not plain text, standard input (ending normally, or failing while being read: directory handle / failing reader), a failed input next to inputs whose lines were printed.",
 		Gen: gen,
 		Replay: func(d json.RawMessage) (Case, error) {
